@@ -335,7 +335,7 @@ def case_module(ci, case, res):
     pre = ""
     L = ["Module K%d." % ci]
     for i, f in enumerate(res["fns"]):
-        L.append("Definition f%d := mkFn %d %s %s %d." % (i, f["id"], coq_str(f["name"]), "true" if f["vec"] else "false", f["ldim"]))
+        L.append("Definition f%d := mkFn %d %d %s %s %d." % (i, f["id"], f["space"], coq_str(f["name"]), "true" if f["vec"] else "false", f["ldim"]))
     for i, f in enumerate(res["faces"]):
         L.append("Definition fc%d := mkFace %d %s %s %s %s." % (i, f["id"], coq_str(f["str"]), coq_str(f["patch"]), cz(f["axis"]), cz(f["ext"])))
     checks, labels = [], []
@@ -649,7 +649,7 @@ def python_replay(case):
 def main(run, replay=None):
     rng = run.rng
     quick = run.tier == "quick"
-    ncases = 400 if quick else 12000
+    ncases = 400 if quick else 8000
     proof_ok = run.coq_props()
 
     cases = []
